@@ -404,12 +404,22 @@ func runReuse(c *mon.Case) {
 			grows[i] = gen.Seq{Name: "s" + gen.Itoa(i), Seq: s}
 		}
 		al := h.MkAlign(grows, align.NUCLEOTIDS)
+		if a > 0 && r.Chance(0.5) {
+			// gamma and alpha are arguments of every DistMatrix call: the same object serves another setting
+			// (gamma on -> off, off -> on, another alpha)
+			was := o.Gamma
+			o.Gamma, o.Alpha = false, 0
+			if !was || r.Chance(0.4) {
+				o.Gamma, o.Alpha = true, r.PickF([]float64{0.5, 1, 2.5, 0.7})
+			}
+			c.Count(fmt.Sprintf("reuse:gamma-%v-then-%v", was, o.Gamma))
+		}
 		mat, err := dna.DistMatrix(al, nil, m, -1, -1, -1, -1, o.Gamma, o.Alpha, r.PickInt([]int{1, 2, 4}))
 		if err != nil {
 			c.Failf(o.Model+":unexpected-error", "DistMatrix on alignment %d of a re-used model: %v", a, err)
 			return
 		}
-		checkMatrix(c, rows, o, mat, nil, fmt.Sprintf("re-used model object, alignment %d of %d", a+1, len(all)))
+		checkMatrix(c, rows, o, mat, nil, fmt.Sprintf("re-used model object, alignment %d of %d (gamma=%v alpha=%v)", a+1, len(all), o.Gamma, o.Alpha))
 		if c.Failed() {
 			return
 		}
@@ -458,7 +468,7 @@ func runWitness(c *mon.Case) {
 }
 
 func main() {
-	mon.SetNote("rule", "case = random nucleotide alignment (2..7 rows x 1..120 columns; residue mixes ACGT / +N / +all IUPAC / mixed case / + * X . ; rows are mutated copies at rates 0..1 so that identical, close, near-saturated, saturated and no-comparable-site pairs occur; leading/trailing/internal gap runs) x random option set (7 models x gamma/alpha x rm-gaps x gap-mut 0/1/2 x rm-ambiguous x weights nil/unit/random x optional sequence ranges x cpus), checked entry by entry against an independent implementation of the published estimators plus symmetry, zero diagonal, d=0 without counted difference, d>=p and the undefined-pair rule; the direct Distance call is checked on one pair; `reuse`: one model object computes 2..5 alignments of different composition in a row, each matrix checked the same way. Non-trivial = rows differ and (a non ACGT symbol or a non default option); distinct = (rows, options). `cli`: the same oracle through the binary built from the tree under test: `goalign compute distance` on 1..3 alignments written as FASTA / Phylip relaxed and strict (several alignments in one file: one matrix per alignment) / --auto-detect / Nexus / Clustal / Stockholm, with -m (each model and the default), --alpha, -r, --gap-mut 0/1/2, --rm-ambiguous, --range1/--range2 (equal and different bounds, clipped upper bounds), -t, -o or stdout, --alphabet; the matrices written are parsed and given to checkMatrix, and their text is compared with dna.DistMatrix on the same input (one model object over the alignments) printed with 12 decimals; -a is run a second time and compared with the mean of the matrix written without it; requests that cannot be served (unknown model / flag, malformed or inverted ranges, missing file) must end with an error message and a non zero status, never with a crash; every third case runs `goalign build distboot` (-m, --alpha, -r, -f, -n, --seed, -t, first alignment of several): the replicates are rebuilt here with rand.Seed(seed) + BuildBootstrap(frac) and every written matrix is checked on its replicate the same way.")
+	mon.SetNote("rule", "case = random nucleotide alignment (2..7 rows x 1..120 columns; residue mixes ACGT / +N / +all IUPAC / mixed case / + * X . ; rows are mutated copies at rates 0..1 so that identical, close, near-saturated, saturated and no-comparable-site pairs occur; leading/trailing/internal gap runs) x random option set (7 models x gamma/alpha x rm-gaps x gap-mut 0/1/2 x rm-ambiguous x weights nil/unit/random x optional sequence ranges x cpus), checked entry by entry against an independent implementation of the published estimators plus symmetry, zero diagonal, d=0 without counted difference, d>=p and the undefined-pair rule; the direct Distance call is checked on one pair; `reuse`: one model object computes 2..5 alignments of different composition in a row, with gamma switched on / off / to another alpha between the calls, each matrix checked the same way. Non-trivial = rows differ and (a non ACGT symbol or a non default option); distinct = (rows, options). `cli`: the same oracle through the binary built from the tree under test: `goalign compute distance` on 1..3 alignments written as FASTA / Phylip relaxed and strict (several alignments in one file: one matrix per alignment) / --auto-detect / Nexus / Clustal / Stockholm, with -m (each model and the default), --alpha, -r, --gap-mut 0/1/2, --rm-ambiguous, --range1/--range2 (equal and different bounds, clipped upper bounds), -t, -o or stdout, --alphabet; the matrices written are parsed and given to checkMatrix, and their text is compared with dna.DistMatrix on the same input (one model object over the alignments) printed with 12 decimals; -a is run a second time and compared with the mean of the matrix written without it; requests that cannot be served (unknown model / flag, malformed or inverted ranges, missing file) must end with an error message and a non zero status, never with a crash; every third case runs `goalign build distboot` (-m, --alpha, -r, -f, -n, --seed, -t, first alignment of several): the replicates are rebuilt here with rand.Seed(seed) + BuildBootstrap(frac) and every written matrix is checked on its replicate the same way.")
 	mon.SetNote("assumptions", "estimator formulas typed from the literature (JC69, K80, F81, F84 as in PHYLIP, TN93 and their gamma versions) in lib/ref/ntdist.go;; open corners accepted in every reading: rm-gaps dropping columns with '-' only or with any non A/C/G/T symbol; base frequencies normalised over nucleotides only or over all characters of the selected columns (one reading must explain the whole matrix);; relative tolerance 1e-9;; '?' and U are rejected by the models with an explicit error and are not generated;; cli: the distances are written with 12 decimals (documented example), the tolerances of checkMatrix (1e-9 relative, 1e-12 absolute) absorb the rounding;; cli: flags documented as 'only available for' other models (--gap-mut, --rm-ambiguous on jc...tn93), --alphabet aa, an invalid --gap-mut value and a single one of --range1 / --range2 may be refused or served (served = flag ignored, nothing compared for the last two);; cli -a: the mean over all the pairs of the matrix or, with ranges, over the pairs of the ranges only (help text: 'all pairs'), NaN entries left out;; cli distboot: `build seqboot --seed S` and `build distboot --seed S` draw the replicates that math/rand seeded with S and Alignment.BuildBootstrap give in the monitor process (go.mod go 1.21.6: rand.Seed is effective); checked once per process against the files written by build seqboot, otherwise the distboot values are not compared and the floors are missed;; cli distboot without --seed: number, shape and labels of the matrices only")
 	for _, m := range models {
 		mon.Floor("model:"+m, 100)
@@ -467,6 +477,8 @@ func main() {
 	for _, m := range models {
 		mon.Floor("reuse:"+m, 100)
 	}
+	mon.Floor("reuse:gamma-true-then-false", 300)
+	mon.Floor("reuse:gamma-false-then-true", 300)
 	mon.Floor("gamma", 100)
 	mon.Floor("rmgaps", 100)
 	mon.Floor("weights", 100)
